@@ -125,3 +125,15 @@ def result_digests(buckets_data_tree) -> dict:
         except Exception:
             result[name] = {"labels": [], "slices": [], "dtype": "?"}
     return result
+
+
+def state_digest(state) -> str:
+    """Return a short digest of a legacy ``numpy.random`` state tuple (read only)."""
+    import hashlib
+
+    import numpy as np
+
+    h = hashlib.sha1()
+    for item in state:
+        h.update(np.asarray(item).tobytes() if not isinstance(item, str) else item.encode())
+    return h.hexdigest()[:16]
